@@ -715,4 +715,139 @@ def Mem.empty : Mem := ⟨[], []⟩
 /-- every reference points into the heap -/
 def Mem.WF (m : Mem) : Prop := ∀ k, some k ∈ m.slots → k < m.heap.length
 
+/-! ## argument OBJECTS: every bytes-like kind, with the state the object has
+
+`project` above speaks about immutable values.  The converters of object/typeconv.go are
+handed *objects*, and three more kinds are accepted where bytes (or a string) are expected:
+
+* `object.Buffer` (a `*bytes.Buffer`: the bytes written so far and a READ OFFSET; its
+  contents are the unread part `buf[off:]`).  `AsString` returns `value.String()`, `AsBytes`
+  has a dedicated case returning `value.Bytes()`: both only LOOK at the unread part.
+* every other `io.Reader` (`object.File`): `AsBytes` falls back to `io.ReadAll(obj)`, which
+  reads the stream to its end — the stream is advanced, as Go's `io.ReadAll(f)` advances an
+  `*os.File`.  `AsString` refuses a file.
+
+`Val` stays the universe of json value trees (a buffer has no faithful json model:
+`Buffer.MarshalJSON` prints with fmt's `%q`); the stateful kinds live in `Obj`, which embeds
+`Val`.  A wrapper call is modelled on a heap of objects so that the SAME object can be used
+by several calls and by several parameters of one call. -/
+
+inductive Obj where
+  | val (v : Val)                       -- an immutable value object (string, byte_slice, int, list …)
+  | buffer (buf : Bytes) (off : Nat)    -- object.Buffer: written bytes, read offset
+  | file (data : Bytes) (pos : Nat)     -- object.File (an io.Reader that is not a Buffer): contents, read position
+
+/-- what a buffer / stream still has to offer -/
+def unread (b : Bytes) (off : Nat) : Bytes := b.drop off
+
+/-- a stream: reading it is consuming it (by nature, in Go as well) -/
+def Obj.isStream : Obj → Bool
+  | .file _ _ => true
+  | _ => false
+
+/-- the contents an object shows to a script (`string(x)`, `x.bytes()`): for a value the value
+    itself, for a buffer / file the unread part -/
+def Obj.asVal : Obj → Val
+  | .val v => v
+  | .buffer b off => .bytes (unread b off)
+  | .file d pos => .bytes (unread d pos)
+
+/-- How `AsBytes` gets at the bytes of a Buffer.  `peek` is the unchanged code (the dedicated
+    `case *Buffer: obj.value.Bytes()`); `drain` is the `io.Reader` fallback applied to a buffer
+    (`io.ReadAll(obj)`: the same bytes, but the buffer is empty afterwards) — the model of the
+    defect class, used only by the sensitivity theorem. -/
+inductive BufRead where
+  | peek | drain
+  deriving Repr, DecidableEq
+
+/-- one converter on one argument object: the Go value handed to the wrapped function and the
+    object's state after the conversion; `none` = type error value -/
+def convObj (m : BufRead) : Conv → Obj → Option (GoVal × Obj)
+  | c, .val v => (project c v).map fun g => (g, .val v)
+  | .str, .buffer b off => some (.str (unread b off), .buffer b off)          -- AsString: value.String()
+  | .bytes, .buffer b off =>
+    match m with
+    | .peek => some (.bytes (unread b off), .buffer b off)                     -- AsBytes: value.Bytes()
+    | .drain => some (.bytes (unread b off), .buffer b (max off b.length))     -- io.ReadAll(buffer)
+  | .bytes, .file d pos => some (.bytes (unread d pos), .file d (max pos d.length))   -- io.ReadAll(file)
+  | _, _ => none
+
+/-- how a case of a converter's type switch gets at the bytes of its argument -/
+inductive Access where
+  | look      -- returns a field / `Bytes()` / `String()` of the object: nothing is read
+  | readAll   -- reads the object as a stream (`io.ReadAll(obj)`)
+  | reject    -- the default case: a type error value
+  deriving Repr, DecidableEq
+
+/-- does an object match the type listed in a case of the Go type switch (`*Buffer` and
+    `*File` both implement `io.Reader`; everything matches `default`) -/
+def Obj.matchesTy : Obj → String → Bool
+  | _, "default" => true
+  | .val (.str _), "*String" => true
+  | .val (.bytes _), "*ByteSlice" => true
+  | .buffer _ _, "*Buffer" => true
+  | .buffer _ _, "io.Reader" => true
+  | .file _ _, "*File" => true
+  | .file _ _, "io.Reader" => true
+  | _, _ => false
+
+/-- a Go type switch takes the FIRST case whose type the value has -/
+def caseOf : List (String × Access) → Obj → Access
+  | [], _ => .reject
+  | (ty, a) :: r, o => if o.matchesTy ty then a else caseOf r o
+
+/-- `object.AsBytes` (hand-written twin of the regenerated table): the dedicated `*Buffer`
+    case stands BEFORE the `io.Reader` fallback, so a buffer is looked at, not read -/
+def asBytesCases : List (String × Access) :=
+  [("*ByteSlice", .look), ("*Buffer", .look), ("*String", .look), ("io.Reader", .readAll), ("default", .reject)]
+
+/-- `object.AsString` -/
+def asStringCases : List (String × Access) :=
+  [("*String", .look), ("*ByteSlice", .look), ("*Buffer", .look), ("default", .reject)]
+
+abbrev Objs := List Obj
+
+/-- the object an argument reference denotes (a dangling reference denotes nil) -/
+def Objs.get (h : Objs) (r : Nat) : Obj := h.getD r (.val .nil)
+
+/-- the converters of a generated wrapper run on `args[i]` in order; the first one that fails
+    ends the call with its type error — the converters before it have run -/
+def convRefs (m : BufRead) : List Conv → List Nat → Objs → Option (List GoVal) × Objs
+  | [], [], h => (some [], h)
+  | c :: cs, r :: rs, h =>
+    match convObj m c (h.get r) with
+    | none => (none, h)
+    | some (g, o') =>
+      match convRefs m cs rs (h.set r o') with
+      | (some gs, h') => (some (g :: gs), h')
+      | (none, h') => (none, h')
+  | _, _, h => (none, h)
+
+/-- a generated wrapper around `f`, called on references into a heap of argument objects:
+    its outcome and the heap afterwards -/
+def wrapObjs (m : BufRead) (sig : Sig) (f : GoFun) (refs : List Nat) (h : Objs) : Out × Objs :=
+  if refs.length ≠ sig.args.length then (.argsErr, h)
+  else match convRefs m sig.args refs h with
+    | (none, h') => (.typeErr, h')
+    | (some gs, h') => (outOf (f (passed sig gs)), h')
+
+/-- one use of argument objects: a wrapper, the Go function behind it, the objects it is given -/
+structure Use where
+  sig : Sig
+  f : GoFun
+  refs : List Nat
+
+/-- a sequence of uses over the same objects: the outcome of every use, and the objects at the end -/
+def runUses (m : BufRead) (h : Objs) : List Use → List Out × Objs
+  | [] => ([], h)
+  | u :: us =>
+    let r := wrapObjs m u.sig u.f u.refs h
+    let t := runUses m r.2 us
+    (r.1 :: t.1, t.2)
+
+/-- Spec: arguments are VALUES — every use, wherever it stands in the sequence, returns what the
+    wrapper returns on the contents the objects had at the start, and the objects are untouched -/
+def specUses (h : Objs) (us : List Use) : List Out × Objs :=
+  (us.map fun u => wrap u.sig u.f (u.refs.map fun r => (h.get r).asVal), h)
+
 end Risor.C19
